@@ -721,8 +721,6 @@ impl LpgStore {
             for key in &indexed_keys {
                 self.update_property_index_on_remove(id, key);
             }
-            #[cfg(grafeo_verif)]
-            grafeo_common::verif::yield_point("lpg.dn.remove_all");
             self.node_properties.remove_all(id);
 
             // Note: Caller should use delete_node_edges() first if detach is needed
@@ -878,8 +876,6 @@ impl LpgStore {
         grafeo_common::verif::yield_point("lpg.sp.index");
         self.update_property_index_on_set(id, &prop_key, &value);
 
-        #[cfg(grafeo_verif)]
-        grafeo_common::verif::yield_point("lpg.sp.set");
         self.node_properties.set(id, prop_key, value);
 
         // Update props_count in record
@@ -1412,8 +1408,6 @@ impl LpgStore {
         drop(nodes);
 
         // Get or create label ID
-        #[cfg(grafeo_verif)]
-        grafeo_common::verif::yield_point("lpg.al.nl");
         let label_id = self.get_or_create_label_id(label);
 
         // Add to node_labels map
@@ -1428,8 +1422,6 @@ impl LpgStore {
         drop(node_labels);
 
         // Add to label_index
-        #[cfg(grafeo_verif)]
-        grafeo_common::verif::yield_point("lpg.al.index");
         let mut index = self.label_index.write();
         if (label_id as usize) >= index.len() {
             index.resize(label_id as usize + 1, FxHashMap::default());
@@ -1524,8 +1516,6 @@ impl LpgStore {
         drop(nodes);
 
         // Get label ID
-        #[cfg(grafeo_verif)]
-        grafeo_common::verif::yield_point("lpg.rl.nl");
         let label_id = {
             let label_ids = self.label_to_id.read();
             match label_ids.get(label) {
@@ -1546,8 +1536,6 @@ impl LpgStore {
         drop(node_labels);
 
         // Remove from label_index
-        #[cfg(grafeo_verif)]
-        grafeo_common::verif::yield_point("lpg.rl.index");
         let mut index = self.label_index.write();
         if (label_id as usize) < index.len() {
             index[label_id as usize].remove(&node_id);
